@@ -33,7 +33,12 @@ import (
 //
 //	if *g.decoded == g.decodedBefore { return 0, io.EOF }; g.decodedBefore = *g.decoded; return g.ReadSeeker.Seek(offset, whence)
 //
-// Anything else is outside the grammar (an error: the tie is broken).
+// and (*passGuard).Read, the guard's own Read that keeps an io.EOF that comes with data back (jv_defers_eof = true):
+//
+//	n, err := g.ReadSeeker.Read(p); if n > 0 && err == io.EOF { err = nil }; return n, err
+//
+// a passGuard without a Read method (the embedded source's Read is used as it is) gives jv_defers_eof = false: the
+// bridge no longer checks. Anything else is outside the grammar (an error: the tie is broken).
 func genJSONDecode(repo, out string) error {
 	fset := token.NewFileSet()
 	pos := func(n ast.Node) string { return fset.Position(n.Pos()).String() }
@@ -99,7 +104,7 @@ func genJSONDecode(repo, out string) error {
 		return err
 	}
 	var guard string
-	var seek *ast.FuncDecl
+	var seek, gread *ast.FuncDecl
 	for _, d := range df.Decls {
 		fd, ok := d.(*ast.FuncDecl)
 		if !ok || fd.Recv == nil {
@@ -108,6 +113,9 @@ func genJSONDecode(repo, out string) error {
 		recv := srcText(fset, fd.Recv.List[0].Type)
 		if fd.Name.Name == "Seek" && strings.Contains(recv, "passGuard") {
 			seek = fd
+		}
+		if fd.Name.Name == "Read" && strings.Contains(recv, "passGuard") {
+			gread = fd
 		}
 		if fd.Name.Name != "Run" || !strings.Contains(recv, "DecodeProvider") {
 			continue
@@ -140,9 +148,17 @@ func genJSONDecode(repo, out string) error {
 	if got := strings.Join(stmts(seek.Body.List), " ;; "); got != wantSeek {
 		return fmt.Errorf("%s: (*passGuard).Seek outside the grammar: %s", pos(seek), got)
 	}
+	defers := "false"
+	if gread != nil {
+		wantRead := "n, err := g.ReadSeeker.Read(p) ;; if n > 0 && err == io.EOF { err = nil } ;; return n, err"
+		if got := strings.Join(stmts(gread.Body.List), " ;; "); got != wantRead {
+			return fmt.Errorf("%s: (*passGuard).Read outside the grammar: %s", pos(gread), got)
+		}
+		defers = "true"
+	}
 	var sb strings.Builder
 	sb.WriteString("(* GENERATED by harness/cmd/translate jsondecode from core/provider/json.go and core/provider/decoder.go. Do not edit. *)\n")
 	sb.WriteString("From Coq Require Import Arith.\nFrom PV Require Import Model.JsonDecode.\n\n")
-	fmt.Fprintf(&sb, "Definition gen_jd_variant : jdvariant := {| jv_record_with_data := %s; jv_guard := %s |}.\n", withData, guard)
+	fmt.Fprintf(&sb, "Definition gen_jd_variant : jdvariant := {| jv_record_with_data := %s; jv_guard := %s; jv_defers_eof := %s |}.\n", withData, guard, defers)
 	return os.WriteFile(out, []byte(sb.String()), 0o644)
 }
